@@ -150,6 +150,51 @@ func genCons(r *prng.Rand, kind string, x0, target []float64) *cons {
 	return c
 }
 
+// consExcluding builds a box / half-space that contains x0 but not the
+// target (the unconstrained minimiser).  With near the boundary passes just in
+// front of the target (1e-3..3e-2 of the distance x0-target away from it),
+// otherwise somewhere between x0 and the target.
+func consExcluding(r *prng.Rand, kind string, x0, target []float64, near bool) *cons {
+	n := len(x0)
+	c := &cons{Kind: kind}
+	frac := r.Uniform(0.2, 0.8)
+	if near {
+		frac = 1 - r.LogUniform(1e-3, 3e-2)
+	}
+	switch kind {
+	case "box":
+		c.Lo, c.Hi = make([]float64, n), make([]float64, n)
+		for i := 0; i < n; i++ {
+			lo, hi := math.Min(x0[i], target[i]), math.Max(x0[i], target[i])
+			c.Lo[i] = lo - r.Uniform(0.5, 3)
+			c.Hi[i] = hi + r.Uniform(0.5, 3)
+		}
+		// cut the coordinate with the largest distance
+		k := 0
+		for i := range x0 {
+			if math.Abs(target[i]-x0[i]) > math.Abs(target[k]-x0[k]) {
+				k = i
+			}
+		}
+		cut := x0[k] + (target[k]-x0[k])*frac
+		if target[k] > x0[k] {
+			c.Hi[k] = cut
+		} else {
+			c.Lo[k] = cut
+		}
+	default:
+		c.A = make([]float64, n)
+		s0, st := 0.0, 0.0
+		for i := range c.A {
+			c.A[i] = target[i] - x0[i]
+			s0 += c.A[i] * x0[i]
+			st += c.A[i] * target[i]
+		}
+		c.Beta = s0 + (st-s0)*frac
+	}
+	return c
+}
+
 func pickConsKind(r *prng.Rand, pNone float64) string {
 	if r.Chance(pNone) {
 		return "none"
